@@ -122,6 +122,8 @@ def sample_values(case, n):
                 r = rng.random()
                 v = math.nan if (r < 0.03 and len(names) > 1 and nm != names[0]) else \
                     float(rng.randint(0, 10 ** 6)) / 8 if r < 0.6 else rng.random() * 1e4
+                if case.get("special") and 0.6 <= r < 0.68:    # numbers that are not NaN: infinities, -0.0, tiny, huge
+                    v = SPECIALS[int((r - 0.6) * 1000) % len(SPECIALS)]
             data[nm][k] = v
     skip = case["acq"]["skip"]
     for entry in case.get("nan_plan", []):
@@ -148,6 +150,23 @@ BOUNDS = {"midnight": (2024, 7, 18), "month-end": (2024, 5, 1), "month-end-30": 
           "noon": (2024, 7, 17, 12), "hour": (2024, 7, 17, 14)}
 DATE_MODES = ["in-line", "between-lines", "at-on", "at-off", "on-999", "off-999", "first-on-999"]
 POISON = -12345.0
+SPECIALS = [math.inf, -math.inf, -0.0, 0.0, 5e-324, 1e30, -1e30, 1.0]
+
+
+MAX_CANVAS = 250000
+
+
+def canvas_estimate(acq, sel):
+    """upper bound of the number of pixels of the image: bounding box of the selected rasters in units of the first
+    selected pattern's spot size"""
+    ps = [acq["patterns"][i] for i in selected(acq, sel)]
+    if not ps or ps[0]["sxu"] <= 0 or ps[0]["syu"] <= 0:
+        return 0
+    ext = [(p["X"], p["X"] + (max(p["npix"], len(p["lines"])) + 1) * p["sxu"],
+            p["Y"], p["Y"] + (max(p["npix"], len(p["lines"])) + 1) * p["syu"]) for p in ps]
+    w = (max(e[1] for e in ext) - min(e[0] for e in ext)) // ps[0]["sxu"] + 2
+    h = (max(e[3] for e in ext) - min(e[2] for e in ext)) // ps[0]["syu"] + 2
+    return w * h
 
 
 def selected_lines(rows, selpat):
@@ -365,8 +384,9 @@ class C08(Prop):
                 kind = rng.choice(["same", "same", "spot", "spot", "diff"])
                 if kind == "same":
                     h = copy.deepcopy(case)
-                    seqs = [p["seq"] for p in h["acq"]["patterns"]]
-                    h["sel"] = rng.choice([None, seqs[0], [seqs[-1]], seqs, h["sel"]])
+                    # another selection among the patterns that share the pixel grid (the others may lie anywhere)
+                    seqs = [h["acq"]["patterns"][i]["seq"] for i in selected(h["acq"], h["sel"])]
+                    h["sel"] = rng.choice([seqs[0], [seqs[-1]], seqs, list(reversed(seqs)), h["sel"]])
                     h["squeeze"] = rng.random() < 0.5
                     h["precall"] = False
                 elif kind == "spot":
@@ -422,7 +442,8 @@ class C08(Prop):
                "tail_gap": rng.choice([0, 0, 10, 500]), "tail_samples": rng.choice([0, 1, 3]),
                "skip": 0, "take": 0,
                "t0": core.rat(rng.choice([Fraction(0), Fraction(69, 4), Fraction(rng.randint(0, 10 ** 7), 1000),
-                                          Fraction(rng.randint(0, 10 ** 9), 10 ** 6)]))}
+                                          Fraction(rng.randint(0, 10 ** 9), 10 ** 6),
+                                          Fraction(1721221978112 + rng.randint(0, 10 ** 9), 1000)]))}
         # lead-in before the first firing: a gap on the very first line (a negative delay, possibly longer than a line)
         if rng.random() < 0.5:
             patterns[0]["lines"][0]["gap"] = rng.choice([3, 250, 1000, 20000])
@@ -466,6 +487,8 @@ class C08(Prop):
                          rng.choice([0, 12, 59]), rng.choice([0, 58, 59]), rng.choice([0, 112, 999])],
                 "via": rng.choice(["path", "pathobj", "array", "array", "arrayview"]),
                 "text": {"eol": rng.choice(["lf", "crlf", "crlf"]), "bom": rng.random() < 0.1, "final_eol": rng.random() < 0.85}}
+        if rng.random() < 0.2:
+            case["special"] = True
         # the run crosses a date (or noon / a full hour) somewhere in the imported lines
         if rng.random() < 0.3:
             case["date"] = {"kind": rng.choice(["midnight"] * 4 + list(BOUNDS)), "mode": rng.choice(DATE_MODES),
@@ -564,6 +587,7 @@ class C08(Prop):
                     yield self.simple(DIRS[i % 4], i % 3 == 0, 3, 3, squeeze=i % 4 != 3, nelem=nelem, gap=[10, 0][i % 2],
                                       dtype=["f8", "f4"][i % 5 == 0],
                                       nan_plan=[{"elems": which, "what": what, "idx": i, "pat": None}])
+        yield self.simple("tb", True, 3, 3, squeeze=True, nelem=2, special=True, dtype="f4")
         yield self.simple("lr", True, 4, 3, squeeze=True, nelem=3,
                           nan_plan=[{"elems": [0], "what": "line", "idx": 1, "pat": None},
                                     {"elems": [2], "what": "along", "idx": 0, "pat": None},
@@ -640,6 +664,10 @@ class C08(Prop):
         if clock not in CLOCKS or layout not in LAYOUTS or dtype not in DTYPES or opt(case, "selform") not in SELFORMS \
                 or text["eol"] not in ("lf", "crlf") or not 1 <= case["nelem"] <= len(ELEMENTS) or case["via"] not in VIAS:
             raise core.InternalError(f"bad case options {clock} {layout} {dtype}")
+        if canvas_estimate(acq, sel) > MAX_CANVAS:
+            # patterns with unrelated spot sizes / positions selected together: no common pixel grid (outside the domain
+            # of the ground truth) and an image of millions of pixels - not evaluated
+            return {**skipres, "features": set()}
         n = signal_count(acq)
         shape = layout_shape(layout, opt(case, "layout_k"), n)
         scalar = clock in ("scalar", "npscalar")
@@ -682,6 +710,7 @@ class C08(Prop):
 
         # ---- the objects the caller holds: the same description gives the same objects within one history
         okey = core.canon([acq, case["nelem"], case["vseed"], case["nan_mod"], case["nan_rem"], case.get("nan_plan", []),
+                           bool(case.get("special")),
                            dtype, layout, opt(case, "layout_k"), clock])
         relation = set()
         if okey in env["objects"]:
@@ -877,6 +906,10 @@ class C08(Prop):
         f.add("squeeze" if case["squeeze"] else "no-squeeze")
         if case["nan_mod"]:
             f.add("nan-samples")
+        if case.get("special"):
+            f.add("values:inf/-0.0/tiny/huge")
+        if unrat(acq["t0"]) > 10 ** 9:
+            f.add("signal-clock:epoch-seconds")
         f.add(f"elements:{case['nelem']}")
         f.add("via:" + case["via"])
         f.add("clock:" + opt(case, "clock"))
@@ -911,7 +944,7 @@ class C08(Prop):
                 c = copy.deepcopy(case)
                 c["history"][i] = hc
                 yield c
-        for k in ("date", "nan_plan", "text"):
+        for k in ("date", "nan_plan", "text", "special"):
             if k in case:
                 yield {kk: v for kk, v in copy.deepcopy(case).items() if kk != k}
         if len(case.get("nan_plan", [])) > 1:
